@@ -10,7 +10,7 @@ from . import c08 as C08
 from . import kernel as KN
 
 PROPERTY = "C01"
-CONTRACTS = [c for c in KN.CONTRACTS if c is not KN.bgp] + [C08.ct_matrix, C08.ct_matrix_default, C08.trend_matrix, C08.vpd_data]
+CONTRACTS = [c for c in KN.CONTRACTS if c is not KN.bgp] + [C08.ct_matrix, C08.ct_matrix_default, C08.trend_matrix, C08.vpd_data, KN.mean_std]
 CALLEES = dict(KN.CALLEES)
 CALLEES.update(C08.CALLEES)
 LIB = dict(C08.LIB)
